@@ -45,6 +45,7 @@ type EnumCase struct {
 	Desc  bool // parameters in descending producer order
 	ErrMask int // bit i = node i fallible
 	FieldMask int // bit i = node i returns a struct that is expanded; its consumers take the field
+	Cons [][]int // explicit consumer lists (layered family); nil = decode Shape
 }
 
 // EnumCases lists all cases for n (both parameter orders when both is set).
@@ -85,7 +86,10 @@ func EnumSpec(name string, cases []EnumCase, r *rand.Rand, errP float64) *Spec {
 		hids = append(hids, b+4)
 	}
 	for ci, c := range cases {
-		cons := dagConsumers(c.N, c.Shape)
+		cons := c.Cons
+		if cons == nil {
+			cons = dagConsumers(c.N, c.Shape)
+		}
 		// producers of node j
 		prods := make([][]int, c.N)
 		for i, cs := range cons {
@@ -142,7 +146,11 @@ func EnumSpec(name string, cases []EnumCase, r *rand.Rand, errP float64) *Spec {
 		if c.FieldMask != 0 {
 			d += fmt.Sprintf("f%d", c.FieldMask)
 		}
-		s.Injectors = append(s.Injectors, &Injector{Name: fmt.Sprintf("Enum%d_%d_%d%s_%d", c.N, c.Shape, c.Mask, d, ci), Ret: tids[c.N-1], Items: items})
+		shape := fmt.Sprint(c.Shape)
+		if c.Shape < 0 {
+			shape = fmt.Sprintf("L%d", -c.Shape)
+		}
+		s.Injectors = append(s.Injectors, &Injector{Name: fmt.Sprintf("Enum%d_%s_%d%s_%d", c.N, shape, c.Mask, d, ci), Ret: tids[c.N-1], Items: items})
 	}
 	return s
 }
@@ -189,6 +197,91 @@ func WithFieldVariants(cases []EnumCase, seed int64) []EnumCase {
 		v := c
 		v.FieldMask = m
 		out = append(out, v)
+	}
+	return out
+}
+
+// EnumCasesSampled draws k random cases for n providers without building the
+// whole case list (n = 6 has 1.25 million cases).
+func EnumCasesSampled(n, k int, seed int64) []EnumCase {
+	r := rand.New(rand.NewSource(seed))
+	var out []EnumCase
+	dc := DagCount(n)
+	for i := 0; i < k; i++ {
+		out = append(out, EnumCase{N: n, Shape: r.Intn(dc), Mask: r.Intn(1 << n), Desc: r.Intn(2) == 0})
+	}
+	return out
+}
+
+// LayeredCases draws k application-shaped DAGs: 1-2 roots, a layer of 2-3
+// nodes fed by the roots, a layer of 2-3 nodes fed by 1-2 nodes of the layer
+// before (cross links between parallel chains are likely), and a sink that
+// consumes the last layer (and sometimes earlier nodes). Async marking is
+// biased: middle layers mostly Async, roots and sink either way.
+func LayeredCases(k int, seed int64) []EnumCase {
+	r := rand.New(rand.NewSource(seed))
+	var out []EnumCase
+	for i := 0; i < k; i++ {
+		nr := 1 + r.Intn(2)
+		n1 := 2 + r.Intn(2)
+		n2 := 2 + r.Intn(2)
+		n := nr + n1 + n2 + 1
+		cons := make([][]int, n)
+		add := func(from, to int) {
+			for _, x := range cons[from] {
+				if x == to {
+					return
+				}
+			}
+			cons[from] = append(cons[from], to)
+		}
+		l0, l1, l2, sink := 0, nr, nr+n1, n-1
+		for j := l1; j < l2; j++ { // layer 1 <- roots
+			add(l0+r.Intn(nr), j)
+			if nr > 1 && r.Intn(3) == 0 {
+				add(l0+r.Intn(nr), j)
+			}
+		}
+		for j := l2; j < sink; j++ { // layer 2 <- layer 1
+			add(l1+r.Intn(n1), j)
+			if r.Intn(2) == 0 {
+				add(l1+r.Intn(n1), j)
+			}
+		}
+		for j := l2; j < sink; j++ {
+			add(j, sink)
+		}
+		// every node needs a consumer
+		for j := 0; j < sink; j++ {
+			if len(cons[j]) == 0 {
+				if j < l1 {
+					add(j, l1+r.Intn(n1))
+				} else if j < l2 {
+					if r.Intn(2) == 0 {
+						add(j, l2+r.Intn(n2))
+					} else {
+						add(j, sink)
+					}
+				}
+			}
+		}
+		if r.Intn(3) == 0 {
+			add(l0+r.Intn(nr), sink)
+		}
+		for j := range cons {
+			sortInts(cons[j])
+		}
+		mask := 0
+		for j := 0; j < n; j++ {
+			p := 50
+			if j >= l1 && j < sink {
+				p = 85
+			}
+			if r.Intn(100) < p {
+				mask |= 1 << j
+			}
+		}
+		out = append(out, EnumCase{N: n, Shape: -1 - i, Mask: mask, Desc: r.Intn(2) == 0, Cons: cons})
 	}
 	return out
 }
